@@ -3,9 +3,12 @@
 package mp
 
 import (
+	"bytes"
 	"fmt"
+	"io"
 	"sort"
 	"strings"
+	"testing/iotest"
 
 	"verif/engine"
 	"verif/ref"
@@ -90,9 +93,52 @@ type Ops[T any] struct {
 	Agg func(a, b T, out *T) error
 	// Hop sends a share through MarshalBinary / UnmarshalBinary into a freshly allocated receiver.
 	Hop func(a T) (T, error)
+	// Stream sends a share through WriteTo / ReadFrom (into a zero-value receiver) over a transport that
+	// fragments the byte stream (wrap decorates the reader). nil: the type has no fragmenting stream hop.
+	Stream func(a T, wrap func(io.Reader) io.Reader) (T, error)
 	// Flat projects a share on its residues.
 	Flat func(a T) Flat
 }
+
+// StreamHop is the generic WriteTo -> (fragmenting reader) -> ReadFrom round trip.
+func StreamHop[T any, PT interface {
+	*T
+	io.ReaderFrom
+}](a io.WriterTo, wrap func(io.Reader) io.Reader) (r T, err error) {
+	var buf bytes.Buffer
+	if _, err = a.WriteTo(&buf); err != nil {
+		return
+	}
+	var rd io.Reader = bytes.NewReader(buf.Bytes())
+	if wrap != nil {
+		rd = wrap(rd)
+	}
+	_, err = PT(&r).ReadFrom(rd)
+	return
+}
+
+// splitReader returns at most k bytes on its first Read (a transport that fragments at one particular byte).
+type splitReader struct {
+	r    io.Reader
+	k    int
+	done bool
+}
+
+func (s *splitReader) Read(p []byte) (int, error) {
+	if !s.done && len(p) > s.k {
+		p = p[:s.k]
+	}
+	s.done = true
+	return s.r.Read(p)
+}
+
+// OneByte and SplitAt are the two fragmenting transports of the lattice search.
+func OneByte(r io.Reader) io.Reader { return iotest.OneByteReader(r) }
+func SplitAt(k int) func(io.Reader) io.Reader {
+	return func(r io.Reader) io.Reader { return &splitReader{r: r, k: k} }
+}
+
+var variantNames = [...]string{"plain", "swap", "hop-first", "hop-second", "alias-first", "alias-second", "stream-first-1byte", "stream-second-split5"}
 
 // Mode selects which part of the merge lattice is explored.
 type Mode int
@@ -206,29 +252,49 @@ func Merge[T any](c *engine.Chooser, ops Ops[T], shares []T, s Search) (final T,
 		a, b := pend[ia], pend[ib]
 		variant := 0
 		if s.Variants {
-			// 0 plain | 1 swapped operands | 2,3 hop of first/second operand | 4,5 output aliases first/second
-			variant = c.Choose(6, "variant")
+			// 0 plain | 1 swapped operands | 2,3 MarshalBinary hop of first/second operand | 4,5 output aliases
+			// first/second | 6,7 WriteTo/ReadFrom hop of first (one byte per read) / second (first read cut at byte 5,
+			// inside the leading 8-byte word)
+			nv := 6
+			if ops.Stream != nil {
+				nv = 8
+			}
+			variant = c.Choose(nv, "variant")
 		}
-		c.Cover("merge-variant", [...]string{"plain", "swap", "hop-first", "hop-second", "alias-first", "alias-second"}[variant])
+		c.Cover("merge-variant", variantNames[variant])
 		if variant == 1 {
 			a, b = b, a
 		}
-		if variant == 2 || variant == 3 {
-			if ops.Hop == nil {
-				panic("mp.Merge: harness error: no Hop")
-			}
+		if variant == 2 || variant == 3 || variant == 6 || variant == 7 {
 			src := &a
-			if variant == 3 {
+			if variant == 3 || variant == 7 {
 				src = &b
 			}
 			var h T
-			err, pan := uni.Try(func() (e error) { h, e = ops.Hop(src.val); return })
+			how := "MarshalBinary/UnmarshalBinary"
+			err, pan := uni.Try(func() (e error) {
+				switch variant {
+				case 6:
+					how = "WriteTo/ReadFrom over a one-byte-per-read transport"
+					h, e = ops.Stream(src.val, OneByte)
+				case 7:
+					how = "WriteTo/ReadFrom over a transport whose first read ends at byte 5"
+					h, e = ops.Stream(src.val, SplitAt(5))
+				default:
+					h, e = ops.Hop(src.val)
+				}
+				return
+			})
+			kind := "serialize"
+			if variant >= 6 {
+				kind = "stream"
+			}
 			if pan != nil || err != nil {
-				c.Fail(ops.Sig+"/serialize/error", "share of group %x: marshal/unmarshal failed: err=%v panic=%v", src.mask, err, pan)
+				c.Fail(ops.Sig+"/"+kind+"/error", "share of group %x: %s failed: err=%v panic=%v", src.mask, how, err, pan)
 				return final, false
 			}
 			if same, why := ops.Flat(h).Equal(refs[src.mask]); !same {
-				c.Fail(ops.Sig+"/serialize/roundtrip-differs", "share of group %x changed through MarshalBinary/UnmarshalBinary: %s", src.mask, why)
+				c.Fail(ops.Sig+"/"+kind+"/roundtrip-differs", "share of group %x changed through %s: %s", src.mask, how, why)
 				return final, false
 			}
 			src.val = h
